@@ -429,3 +429,15 @@ def _m25():
 def _m26():
     # '|' dropped from the dependency escape table
     _make_writer_regex('dep_ex', r'(\\*)(^~|[?*\[\s#:])')
+
+
+@mutant('make_qvar_unquoted')
+def _m27():
+    # quoted automatic variables ('$@') lose their quotes
+    from bfg9000.backends.make import syntax as ms
+    from bfg9000 import safe_str
+
+    def use(self):
+        fmt = '${}' if len(self.name) == 1 else '$({})'
+        return safe_str.literal(fmt.format(self.name))
+    ms.Variable.use = use
